@@ -23,7 +23,6 @@ import (
 	"go/token"
 	"os"
 	"path/filepath"
-	"regexp"
 	"sort"
 	"strings"
 )
@@ -44,6 +43,8 @@ type c20Extractor struct {
 	commTokens bool
 	// pinned call-site arguments (time-outs), collected while walking
 	pins []string
+	// the guards the region being walked speaks about
+	guards map[string]bool
 	// statistics
 	nIf, nStmts int
 }
@@ -138,24 +139,7 @@ func (x *c20Extractor) learnAliases(body *ast.BlockStmt) {
 	delete(x.alias, "\x00listener")
 }
 
-var c20RetireGuard = regexp.MustCompile(`^\w+ != nil && reloadManager\.currentPendingStagedHandoff\(\) == nil$`)
 
-// guards recognised by the exact (whitespace-normalised) source text of the condition.
-var c20Guards = map[string]string{
-	"reloadManager.reloading.Load()":                                   "reloading",
-	"listener == nil":                                                  "lnil",
-	"handoff != nil":                                                   "staged",
-	"reloadErr == nil":                                                 "errnil",
-	"waitResult == reloadReadyWaitSignal && termSig != nil":            "term",
-	"waitResult != reloadReadyWaitReady":                               "notready",
-	// retirement functions
-	"c == nil || c.ActiveSessionCount() == 0": "nosession",
-	"logEvery > 0":                            "logevery",
-	"m == nil || oldControlPlane == nil":      "nilplane",
-	"m.lastRetirementCancel != nil":           "hasprev",
-	"oldCancel != nil":                        "hasoldcancel",
-	"successor != nil":                        "hassucc",
-}
 
 // pure reads of the manager: no token.
 var c20PureReads = map[string]bool{
@@ -484,11 +468,10 @@ func (x *c20Extractor) stmt(s ast.Stmt) []c20Path {
 	case *ast.IfStmt:
 		x.nIf++
 		pre := x.exprTokens(v.Init)
-		cond := c20NormCond(x.src(v.Cond))
 		pre = append(pre, x.exprTokens(v.Cond)...)
-		g := c20Guards[cond]
-		if g == "" && c20RetireGuard.MatchString(cond) {
-			g = "retire"
+		g, pol := x.guardOf(v.Cond)
+		if x.guards != nil && !x.guards[g] {
+			g = "" // a shape that means something in another region only
 		}
 		thenP := x.block(v.Body.List)
 		var elseP []c20Path
@@ -498,8 +481,12 @@ func (x *c20Extractor) stmt(s ast.Stmt) []c20Path {
 			elseP = []c20Path{{}}
 		}
 		if g != "" {
-			thenP = c20Prefix([]string{g + "=1"}, thenP)
-			elseP = c20Prefix([]string{g + "=0"}, elseP)
+			yes, no := "=1", "=0"
+			if !pol {
+				yes, no = no, yes
+			}
+			thenP = c20Prefix([]string{g + yes}, thenP)
+			elseP = c20Prefix([]string{g + no}, elseP)
 		}
 		return c20Prefix(pre, c20Dedupe(append(thenP, elseP...)))
 	case *ast.SwitchStmt:
@@ -690,10 +677,13 @@ func c20ExtractRegions(repo string) (*c20Regions, error) {
 		fact("pins " + region + " " + strings.Join(ks, " "))
 		x.pins = nil
 	}
+	x.guards = map[string]bool{"retire": true}
 	r.worker = norm(x.block(workerBody), "next")
 	pinLine("worker")
+	x.guards = map[string]bool{"reloading": true, "lnil": true, "staged": true, "errnil": true, "term": true, "notready": true}
 	r.handler = norm(x.block(handlerBody), "next")
 	pinLine("handler")
+	x.guards = map[string]bool{}
 	r.signals = norm(x.block(signalBody), "next")
 	x.pins = nil
 	// ---- constructor lines of Run (outside the three regions)
@@ -737,7 +727,8 @@ func c20ExtractRegions(repo string) (*c20Regions, error) {
 	})
 	x.pins = nil
 	// ---- retirement functions
-	y := &c20Extractor{fset: fset, alias: map[string]string{}, commTokens: true}
+	y := &c20Extractor{fset: fset, alias: map[string]string{}, commTokens: true,
+		guards: map[string]bool{"nosession": true, "logevery": true, "nilplane": true, "hasprev": true, "hasoldcancel": true, "hassucc": true}}
 	funcBody := func(file *ast.File, name string) *ast.BlockStmt {
 		for _, d := range file.Decls {
 			if fd, ok := d.(*ast.FuncDecl); ok && fd.Name.Name == name {
@@ -930,16 +921,144 @@ func c20ExtractCLI(repo string, r *c20Regions, x *c20Extractor) error {
 	return nil
 }
 
-var c20NilLeft = regexp.MustCompile(`\bnil (==|!=) ([A-Za-z_][A-Za-z0-9_.]*(\(\))?)`)
+// ---- structural recognition of guards (go/ast shapes, not source text)
 
-// c20NormCond: `nil == x` → `x == nil`, redundant outer parentheses dropped, so that the guard table
-// does not depend on such spellings.
-func c20NormCond(c string) string {
-	c = c20NilLeft.ReplaceAllString(c, "$2 $1 nil")
-	for strings.HasPrefix(c, "(") && strings.HasSuffix(c, ")") && strings.Count(c, "(") == 1 {
-		c = strings.TrimSpace(c[1 : len(c)-1])
+func c20Unparen(e ast.Expr) ast.Expr {
+	for {
+		p, ok := e.(*ast.ParenExpr)
+		if !ok {
+			return e
+		}
+		e = p.X
 	}
-	return c
+}
+
+// atom describes a leaf condition: `<subject> <op> <object>` with the subject printed under the alias
+// map; comparisons with nil / a constant are put subject-first.
+type c20Atom struct {
+	subj, op, obj string
+}
+
+func (x *c20Extractor) atomOf(e ast.Expr) (c20Atom, bool) {
+	e = c20Unparen(e)
+	switch v := e.(type) {
+	case *ast.BinaryExpr:
+		switch v.Op {
+		case token.EQL, token.NEQ, token.GTR, token.LSS, token.GEQ, token.LEQ:
+			l, r := x.src(c20Unparen(v.X)), x.src(c20Unparen(v.Y))
+			op := v.Op
+			isConst := func(s string) bool {
+				return s == "nil" || s == "0" || strings.HasPrefix(s, "reloadReadyWait") || strings.HasPrefix(s, "consts.")
+			}
+			if isConst(l) && !isConst(r) {
+				l, r = r, l
+				switch op {
+				case token.GTR:
+					op = token.LSS
+				case token.LSS:
+					op = token.GTR
+				case token.GEQ:
+					op = token.LEQ
+				case token.LEQ:
+					op = token.GEQ
+				}
+			}
+			return c20Atom{l, op.String(), r}, true
+		}
+	case *ast.CallExpr:
+		return c20Atom{x.src(v), "call", ""}, true
+	case *ast.Ident:
+		return c20Atom{x.src(v), "ident", ""}, true
+	}
+	return c20Atom{}, false
+}
+
+// flatten an &&- or ||-tree into its leaves
+func c20Leaves(e ast.Expr, op token.Token) []ast.Expr {
+	e = c20Unparen(e)
+	if b, ok := e.(*ast.BinaryExpr); ok && b.Op == op {
+		return append(c20Leaves(b.X, op), c20Leaves(b.Y, op)...)
+	}
+	return []ast.Expr{e}
+}
+
+// guardOf recognises the conditions the path tables speak about by their shape.  pol = false means
+// the condition is the negation of the named guard.
+func (x *c20Extractor) guardOf(cond ast.Expr) (name string, pol bool) {
+	cond = c20Unparen(cond)
+	if u, ok := cond.(*ast.UnaryExpr); ok && u.Op == token.NOT {
+		n, p := x.guardOf(u.X)
+		return n, !p
+	}
+	eqnil := func(a c20Atom, subj string) (match, isNil bool) {
+		if a.subj == subj && a.obj == "nil" && (a.op == "==" || a.op == "!=") {
+			return true, a.op == "=="
+		}
+		return false, false
+	}
+	if a, ok := x.atomOf(cond); ok {
+		switch {
+		case a.op == "call" && a.subj == "reloadManager.reloading.Load()":
+			return "reloading", true
+		case a.subj == "waitResult" && a.obj == "reloadReadyWaitReady" && (a.op == "!=" || a.op == "=="):
+			return "notready", a.op == "!="
+		case a.subj == "logEvery" && a.obj == "0" && (a.op == ">" || a.op == "<="):
+			return "logevery", a.op == ">"
+		}
+		for subj, g := range map[string]struct {
+			name  string
+			onNil bool
+		}{"listener": {"lnil", true}, "handoff": {"staged", false}, "reloadErr": {"errnil", true},
+			"m.lastRetirementCancel": {"hasprev", false}, "oldCancel": {"hasoldcancel", false}, "successor": {"hassucc", false}} {
+			if m, isNil := eqnil(a, subj); m {
+				return g.name, isNil == g.onNil
+			}
+		}
+	}
+	// conjunctions / disjunctions, leaves in any order
+	atoms := func(op token.Token) (out []c20Atom, ok bool) {
+		ls := c20Leaves(cond, op)
+		if len(ls) < 2 {
+			return nil, false
+		}
+		for _, l := range ls {
+			a, k := x.atomOf(l)
+			if !k {
+				return nil, false
+			}
+			out = append(out, a)
+		}
+		return out, true
+	}
+	has := func(as []c20Atom, subj, op, obj string) bool {
+		for _, a := range as {
+			if a.subj == subj && a.op == op && a.obj == obj {
+				return true
+			}
+		}
+		return false
+	}
+	if as, ok := atoms(token.LAND); ok && len(as) == 2 {
+		switch {
+		case has(as, "waitResult", "==", "reloadReadyWaitSignal") && has(as, "termSig", "!=", "nil"):
+			return "term", true
+		case has(as, "reloadManager.currentPendingStagedHandoff()", "==", "nil"):
+			for _, a := range as {
+				if a.obj == "nil" && a.op == "!=" && !strings.Contains(a.subj, "(") {
+					return "retire", true // `<old generation> != nil && no staged hand-off`
+				}
+			}
+		}
+	}
+	if as, ok := atoms(token.LOR); ok && len(as) == 2 {
+		switch {
+		case has(as, "c", "==", "nil") && has(as, "c.ActiveSessionCount()", "==", "0"):
+			return "nosession", true
+		case has(as, "m", "==", "nil") && has(as, "oldControlPlane", "==", "nil"):
+			return "nilplane", true
+		}
+	}
+	return "", true
 }
 
 func c20RepoDir() string {
